@@ -77,6 +77,11 @@ pub fn malform(r: &mut Rng, e: &mut EchoReq) -> Option<String> {
                     (2, "invalid%20type:%20string"),
                     (3, "duplicate%20field%20%60b%60"),
                     // a valid prefix followed by a raw sub-delimiter and more
+                    // an enum variant is named, never numbered
+                    (4, "0"),
+                    (4, "1"),
+                    (4, "2"),
+                    (3, "0"),
                     (2, "12;junk"),
                     (2, "7;v=1"),
                     (3, "true;x"),
@@ -290,7 +295,7 @@ pub fn malform(r: &mut Rng, e: &mut EchoReq) -> Option<String> {
                 10 => ("min", "".into(), "scan parameter min= (empty, not a number)"),
                 11 => ("min", "abc".into(), "scan parameter min=abc"),
                 12 => ("min", "9223372036854775808".into(), "scan parameter min out of range"),
-                13 => ("ord", "".into(), "scan parameter ord= (empty, not a variant)"),
+                13 => ("ord", (*r.pick(&["", "0", "1", "2"])).into(), "scan parameter ord is empty or a number, not a variant"),
                 14 => ("ord", "Purple".into(), "scan parameter ord=Purple"),
                 15 => ("flag", "".into(), "scan parameter flag= (empty, not a bool)"),
                 16 => ("flag", "2".into(), "scan parameter flag=2"),
